@@ -465,7 +465,14 @@ Proof. exact FxtNoPanic.zero_pair_is_an_error. Qed.
    excel.rs:39 (QtNoPanic.ragged_row_panics_in_model) - no decoded sheet does.
    Under rust_decimal the statement is limited by class decimal-overflow and by
    nothing else: C05_questrade_converter_dec_only_overflow.
-   Outside the model: xlsx decoding, f64 -> Decimal, Error cells. *)
+   Outside the model: xlsx decoding, f64 -> Decimal, Error cells - and a
+   Range of width 0: the model's sheet [] stands for a Range without rows
+   ("Sheet was empty"), but the Range that the office crate returns for a
+   worksheet without <dimension> and without cells is Range::default() of
+   size (0, 0), and on it the real sheet_to_txs panics in `sheet.rows()`
+   (chunks(0), "chunk size must be non-zero"): a genuine panic of the real
+   binary found while checking this theorem's input class against the code,
+   reported in design.d/qtnopanic.md (not expressible in the model as it is). *)
 From ACB Require Import Proofs.QuestradeProps Proofs.QtNoPanic.
 
 Theorem C05_questrade_converter_never_panics_exact : forall pol o sh,
